@@ -68,6 +68,11 @@ PRODUCERS = [
     ("stats", "h.stats()", False),
     ("stats_chunk", "h.stats().current_chunk()", False),
     ("any_stats", "BumpAllocatorCore::any_stats(&*h)", False),
+    # the type-erasing conversions must carry the lifetime over (From<Stats<'a>> for AnyStats<'a> ...)
+    ("any_stats_from_stats", "bump_scope::stats::AnyStats::from(h.stats())", False),
+    ("any_chunk_from_chunk", "bump_scope::stats::AnyChunk::from(h.stats().current_chunk().unwrap())", False),
+    ("any_prev_iter_from_iter", "bump_scope::stats::AnyChunkPrevIter::from(h.stats().big_to_small())", False),
+    ("any_next_iter_from_iter", "bump_scope::stats::AnyChunkNextIter::from(h.stats().small_to_big())", False),
     ("allocator", "h.allocator()", False),
     ("claim", "h.claim()", False),
     ("alloc_iter_mut", "h.alloc_iter_mut([1u8, 2, 3])", True),
@@ -96,7 +101,7 @@ HANDLES = [
 ]
 
 # producers that only exist on Bump/BumpScope themselves (inherent / BumpAllocatorScope)
-SCOPE_ONLY = {"stats", "stats_chunk", "allocator", "claim", "scope_guard", "by_value", "alloc_try_with", "alloc_try_with_mut"}
+SCOPE_ONLY = {"any_stats_from_stats", "any_chunk_from_chunk", "any_prev_iter_from_iter", "any_next_iter_from_iter", "stats", "stats_chunk", "allocator", "claim", "scope_guard", "by_value", "alloc_try_with", "alloc_try_with_mut"}
 
 # escape routes: (name, must-fail template, control template). {P} = producer expr with h bound.
 # In templates, `s` is a `&mut BumpScope` (or Bump where noted).
@@ -410,7 +415,11 @@ def main(tier, seed, rest):
     os.makedirs(WORK, exist_ok=True)
     target_dir = os.path.join(WORK, "target")
     progs = list(gen_borrow_programs())
-    always = list(gen_alias_programs()) + list(gen_two_alloc_programs())
+    # producers that are part of every quick run (the type-erasing stats conversions)
+    pinned = ("__any_stats_from_stats", "__any_chunk_from_chunk", "__any_prev_iter_from_iter", "__any_next_iter_from_iter")
+    always = [p for p in progs if p[0].endswith(pinned)]
+    progs = [p for p in progs if not p[0].endswith(pinned)]
+    always += list(gen_alias_programs()) + list(gen_two_alloc_programs())
     total_grammar = len(progs) + len(always)
     rng = random.Random(seed)
     if tier != "thorough":
